@@ -249,8 +249,12 @@ def _explore(ctx: Ctx, with_model: bool) -> None:
         if k % 150 == 0:
             ctx.sample({"kind": kind, "input": what, "outcome": res["kind"], "msg": res.get("msg", "")[:120]})
         _judge_and_record(ctx, kind, text if isinstance(text, str) else "", res, what)
-        if kind in ("constant_set", "constant_primitive", "pattern", "raw", "garbage") or k % 10 == 0:
-            _judge_and_record(ctx, kind, "", cli(path, scratch), what)
+        if res["kind"] == "error" and (kind in ("constant_set", "constant_primitive", "pattern", "raw", "garbage") or k % 10 == 0):
+            # a rejected model through the real CLI: exit status 1 and a non-empty stderr, never an exception
+            r = cli(path, scratch)
+            _judge_and_record(ctx, kind, "", r, what)
+            if r["kind"] == "done" and r["rc"] != 1:
+                ctx.fail(what, f"load_model rejects the model but the CLI exits {r['rc']}", "C01:cli-status")
         # correspondence: stage composition on fixtures + targeted inputs
         if with_model and kind in ("fixture", "corpus", "invariant", "raw") and isinstance(text, str) and res["kind"] != "crash":
             try:
